@@ -37,6 +37,44 @@ KINDS = {"in": ("IN", "InTransaction", "in_header"), "out": ("OUT", "OutTransact
 NON_HEADER_PARAMS = {"self", "configuration", "row", "from_lot"}
 
 
+def _drains_by_class(m, po, drain: ast.For) -> bool:
+    """Every path of the drain loop's body either adds this transaction to the set of its own class (exactly one add_entry, on the set keyed by the
+    EntrySetType of the class the path established by isinstance) or raises having excluded all three classes; all three classes are served."""
+    from ..symexec import SPath, SymExec
+
+    se = SymExec(m.norm, m.norm.ctx_for(po, subst_locals=False), inline_helpers=False)
+    init = SPath()
+    t = ("sym", "t")
+    init.vars[drain.target.id] = (t, ("cls", "rp2.abstract_transaction:AbstractTransaction"))
+    want = {"rp2.in_transaction:InTransaction": "IN", "rp2.out_transaction:OutTransaction": "OUT", "rp2.intra_transaction:IntraTransaction": "INTRA"}
+    served = set()
+
+    def inst(c):  # class name of an 'isinstance(t, C)' test
+        if c[0] == "truthy" and c[1][0] == "xcall" and c[1][1] == "isinstance" and len(c[1][3]) == 2 and c[1][3][0] == t and c[1][3][1][0] == "sym" and str(c[1][3][1][1]).startswith("class:"):
+            return c[1][3][1][1][len("class:") :]
+        return None
+
+    for p in se.run(drain.body, init):
+        conds = p.conds()
+        pos = [inst(c) for c in conds if inst(c)]
+        neg = [inst(c[1]) for c in conds if c[0] == "not" and inst(c[1])]
+        if len(pos) + len(neg) != len(conds):
+            return False  # a further condition decides where (or whether) the transaction goes
+        adds = [dict(e[1][2]) for e in p.calls() if e[1][0] == "call" and e[1][1].endswith("TransactionSet.add_entry")]
+        if p.exit == "raise":
+            if pos or adds or set(neg) != set(want):
+                return False
+            continue
+        if p.exit != "fall" or len(pos) != 1 or pos[0] not in want or len(adds) != 1:
+            return False
+        a = adds[0]
+        key = a.get("self")
+        if a.get("entry") != t or not (isinstance(key, tuple) and key[0] == "old" and key[1] == ("sym", "unfiltered_transaction_sets") and key[2][0] == "const" and getattr(key[2][1], "member", None) == want[pos[0]]):
+            return False
+        served.add(pos[0])
+    return served == set(want)
+
+
 def run(rep: Report, tier: str) -> None:
     m = model()
     prog, norm = m.prog, m.norm
@@ -178,17 +216,14 @@ def run(rep: Report, tier: str) -> None:
     ok = len(rv) == 1 and unparse(rv[0].value) == "[cell.value for cell in row]"
     rep.check(ok, rd, OP, po.qualname, "row_values are this row's cell values, all of them", f"row_values is {short(rv[0].value, 80) if rv else 'missing'}; expected [cell.value for cell in row]", loc(loop))
     last = loop.body[-1]
-    rep.check(isinstance(last, ast.AugAssign) and unparse(last) == "current_table_row_count += 1", rd, OP, po.qualname, "row counter advances once per row on every path", "the per-table row counter is not advanced unconditionally at the end of each iteration (header/data classification would drift)", loc(last))
+    rep.check(unparse(last) in ("current_table_row_count += 1", "current_table_row_count = current_table_row_count + 1", "current_table_row_count = 1 + current_table_row_count"), rd, OP, po.qualname, "row counter advances once per row on every path", "the per-table row counter is not advanced unconditionally at the end of each iteration (header/data classification would drift)", loc(last))
     reset = [n for n in ast.walk(loop) if isinstance(n, ast.Assign) and unparse(n) == "current_table_row_count = 0"]
     rep.check(len(reset) == 1, rd, OP, po.qualname, "row counter restarts at each table begin", "the per-table row counter is not reset exactly once (at table begin)", loc(loop))
     check_handler_paths(rep, rd)
     drain = [n for n in po.node.body if isinstance(n, ast.For) and unparse(n.iter) == "artificial_transaction_list"]
-    ok = len(drain) == 1 and drain[0].lineno > loop.end_lineno
+    ok = len(drain) == 1 and drain[0].lineno > loop.end_lineno and isinstance(drain[0].target, ast.Name) and not drain[0].orelse
     if ok:
-        txt = unparse(drain[0])
-        for est, cname in (("IN", "InTransaction"), ("OUT", "OutTransaction"), ("INTRA", "IntraTransaction")):
-            ok = ok and re.search(rf"isinstance\(transaction, {cname}\):\s+unfiltered_transaction_sets\[EntrySetType\.{est}\]\.add_entry\(transaction\)", txt) is not None
-        ok = ok and not any(isinstance(n, (ast.Break, ast.Continue)) for n in ast.walk(drain[0]))
+        ok = _drains_by_class(m, po, drain[0])
     rep.check(ok, rd, OP, po.qualname, "artificial transactions are drained after the loop into the set of their own class", "the artificial-transaction list is not drained completely, after the row loop, into the IN/OUT/INTRA set matching each transaction's class", loc(po.node))
 
     # ---------------------------------------------------------------- C11.e
